@@ -310,7 +310,11 @@ def verdict_valid(desc):
     h_setup = mesh_hashes(users)
     # multi-section: the documented recipe ADDS surface["mesh"] (the unified mesh) before setup; compare common keys
     for k in h0:
-        out.true("mutated/setup", h_setup.get(k) == h0[k], "user array %s changed during setup" % k)
+        out.true("mutated/setup", h_setup.get(k) == h0[k], "user entry %s changed during setup" % k)
+    from oasv.setups import added_keys
+
+    new_keys = added_keys(h0, h_setup, allowed=("mesh",) if t["kind"] == "multisec" else ())
+    out.true("mutated/keys_added_at_setup", not new_keys, "setup wrote new keys into the user's surface dictionary: %s" % new_keys)
     h0 = h_setup
     p1.run_model()
     a = all_outputs(p1)
